@@ -157,6 +157,34 @@ pub fn judge(seq: &[usize], prior: usize, ak: usize, all_set: &std::collections:
         }
         keyacc.push(format!("{:?}", rs));
     }
+    // the flattening helper is parse_bytes plus conversion: under the same configuration and history it yields the flows
+    // of exactly what parse_bytes reports, and leaves the same caches
+    {
+        let mk = || {
+            let mut p = NetflowParser::default();
+            if late {
+                for c in prior_calls(prior) {
+                    p.parse_bytes(&c);
+                }
+            }
+            p.allowed_versions = s_set.clone();
+            if !late {
+                for c in prior_calls(prior) {
+                    p.parse_bytes(&c);
+                }
+            }
+            p
+        };
+        let (mut p1, mut p2) = (mk(), mk());
+        let via_parse: usize = p1.parse_bytes(&buf).iter().filter_map(|e| e.as_netflow_common().ok()).map(|c| c.flowsets.len()).sum();
+        let via_helper = p2.parse_bytes_as_netflow_common_flowsets(&buf).len();
+        if via_parse != via_helper {
+            issues.push(issue("helper/flattening-helper-reports-other-flows-than-parse_bytes", format!("allowed {:?}: parse_bytes_as_netflow_common_flowsets returns {} flows, the conversion of parse_bytes' result {}", s, via_helper, via_parse)));
+        }
+        if snap(&p1) != snap(&p2) {
+            issues.push(issue("helper/flattening-helper-leaves-other-caches-than-parse_bytes", format!("allowed {:?}", s)));
+        }
+    }
     tags.sort();
     tags.dedup();
     if pp.allowed_versions.len() == 65536 && pall.allowed_versions.len() == 65536 {
